@@ -33,7 +33,7 @@ pub const MONITOR_C16: Monitor = Monitor {
 
 pub const R_VERTEX: f64 = 0.763_932_022_500_210_3; // 3 - sqrt 5
 pub const D_EDGE: f64 = 0.618_033_988_749_894_9; // (sqrt 5 - 1) / 2
-const LON_OFFSET_DEG: f64 = 93.0;
+pub const LON_OFFSET_DEG: f64 = 93.0;
 
 /// the face pentagon from the documented constants: vertices at radius 3 - sqrt 5, azimuth 36 + 72 k degrees
 pub fn face_pentagon() -> [P2; 5] {
